@@ -478,7 +478,9 @@ func (e *Exec) open(o Opts, first bool) {
 			e.ll = newMapLL(e)
 		}
 		co := e.collOptions(o)
-		co.LowerLevelInit = e.ll.snapshot()
+		if !o.NoLLInit {
+			co.LowerLevelInit = e.ll.snapshot()
+		}
 		co.LowerLevelUpdate = e.ll.update
 		c, err := moss.NewCollection(co)
 		if err != nil {
